@@ -53,3 +53,41 @@ def _rows(repo, rep):
     R.r9_discrete(repo, rep)
 
 PROPS["C04"] = lambda repo, rep: (_c04_tmp(repo, rep), _rows(repo, rep))
+
+
+def _handlers(repo, rep):
+    from .rules import handlers as H
+    H.role_rule(repo, rep, "_process_trans_SIR_", resched_required=False)
+    H.role_rule(repo, rep, "_process_trans_SIS_Markov", resched_required=True)
+    H.role_rule(repo, rep, "_process_trans_SIS_nonMarkov_", resched_required=True)
+    H.sir_guards(repo, rep)
+    H.sis_markov_guards(repo, rep)
+    H.sis_nonmarkov_rules(repo, rep)
+    H.proto_rule(repo, rep, ["fast_SIR", "fast_nonMarkov_SIR", "fast_nonMarkov_SIS", "directed_percolate_network"])
+    H.adapter_rule(repo, rep)
+
+PROPS["C11"] = _handlers
+
+
+def _gill(repo, rep):
+    from .rules import gillespie as G
+    for n in ("Gillespie_SIR", "Gillespie_SIS"):
+        G.r11_sir_sis(repo, rep, n)
+        G.rate_consistency_sir_sis(repo, rep, n)
+    G.rate_functions_rule(repo, rep)
+    G.simple_contagion_rule(repo, rep)
+    G.complex_contagion_rule(repo, rep)
+
+PROPS["C03"] = _gill
+
+
+def _misc(repo, rep):
+    from .rules import misc as M
+    M.r10(repo, rep)
+    M.transform_history_rule(repo, rep)
+    M.r14(repo, rep)
+    M.r15(repo, rep)
+    M.subsample_rule(repo, rep)
+    M.investigation_rule(repo, rep)
+
+PROPS["C20"] = _misc
